@@ -284,12 +284,15 @@ func (g *Gen) genC14(n int) error {
 			// first opens of an uncached field by several goroutines at once, all with the same
 			// exclusion bitmap: winner and losers of the race answer alike
 			nd := len(b.Docs)
-			for r := 0; r < g.tierN(25, 80); r++ {
+			for r := 0; r < g.tierN(50, 120); r++ {
 				o2 := g.fresh("o")
 				g.emit("open %s %s", o2, f)
 				g.alias(o2, s)
 				hp := g.fresh("h")
-				ex := g.randDrops(nd)
+				ex := intList([]int{g.r.Intn(nd)})
+				if g.chance(0.5) {
+					ex = g.randDrops(nd)
+				}
 				fn := g.pick([]string{"vecA", "vecB"})
 				g.emit("par %d rounds=1 ordered=1", 8+g.r.Intn(9))
 				g.emit("vopen %s %s %s filt=g ex=%s", hp, o2, fn, ex)
@@ -596,6 +599,11 @@ func (g *Gen) genC19(n int) error {
 		g.emit("note case %d", i)
 		g.emit("vreset")
 		g.setMode()
+		if i == 2 {
+			g.manyVectorsFaultCase()
+			g.st("case")
+			continue
+		}
 		var segs []string
 		for k := 0; k < 2; k++ {
 			cfg := g.vecCfg()
@@ -877,4 +885,41 @@ func (g *Gen) sameVectorCase() {
 	}
 	g.emit("vcounters")
 	g.st("vec.samevectors")
+}
+
+// manyVectorsFaultCase: a merge with more than 4096 surviving vectors in one field, repeated with
+// every engine call failing in turn (an engine fed in slices makes more calls than a small merge shows).
+func (g *Gen) manyVectorsFaultCase() {
+	var segs []string
+	for k := 0; k < 2; k++ {
+		b := &BatchSpec{Name: g.fresh("b")}
+		for d := 0; d < 640+g.r.Intn(30); d++ {
+			id := []byte(fmt.Sprintf("%s-%d", b.Name, d))
+			doc := DocSpec{ID: id, Plain: true}
+			doc.Fields = append(doc.Fields, FieldSpec{Kind: "fld", Name: "_id", Typ: 't', Stored: true, Len: 1, Val: id, Toks: []TokSpec{{Term: id, Freq: 1}}})
+			vf := FieldSpec{Kind: "vec", Name: "vecA", Dim: 2, Metric: "l2_norm", Opt: g.vecOpt["vecA"]}
+			for x := 0; x < 8; x++ {
+				vf.Vec = append(vf.Vec, g.r.Intn(9)-4)
+			}
+			doc.Fields = append(doc.Fields, vf)
+			b.Docs = append(b.Docs, doc)
+		}
+		g.emitBatch(b)
+		s := g.fresh("s")
+		g.emit("build %s %s", s, b.Name)
+		g.newBuilt(s, b)
+		segs = append(segs, s)
+	}
+	mf := g.fresh("f")
+	g.emit("mergeengfaults %s segs=%s drops=nil|3", mf, strList(segs))
+	m := g.fresh("m")
+	g.emit("open %s %s", m, mf)
+	g.emit("vstats %s", m)
+	g.emit("q count %s", m)
+	g.emit("close %s", m)
+	for _, s := range segs {
+		g.emit("close %s", s)
+	}
+	g.emit("vcounters")
+	g.st("vec.manyvectors")
 }
